@@ -1,7 +1,7 @@
 """C20 - driver contract: exit status, all-or-nothing output, flags.
 
-1. TLC model-checks SyltDriver (MC_Driver): every configuration (sink x --require x --no-std x program class x
-   uses-std; 448) is walked to its end with the contract (exit = 0 <=> success, every error printed, FILE / stdout /
+1. TLC model-checks SyltDriver (MC_Driver): every configuration (sink x --require spelling x --no-std x program class x
+   uses-std; 2800) is walked to its end with the contract (exit = 0 <=> success, every error printed, FILE / stdout /
    the child's chunk complete or untouched, run output only in run mode) evaluated in every state, and one REPLAY
    record per behaviour is printed. Three defective variants of the machine (partial write, silent exit, exit 0
    despite errors) must each violate the matching invariant (spec-level negative controls).
@@ -15,7 +15,7 @@
    (exit status flipped, errors not / partly / twice printed, FILE half-written / truncated / one byte short, an extra
    byte on `-o -`, the require twice / missing / late / of another module, --no-std changing the program, the program
    never run). TLC must reject every such record with the verdict of its clause and must reject nothing else.
-quick = the whole configuration space x 3 programs per class x 2 command-line spellings; thorough = x 3 x 12.
+quick = the whole configuration space x 3 programs per class (canonical spelling); thorough = x 3 x 4 command-line spellings.
 """
 import json
 import os
@@ -34,7 +34,7 @@ PANIC_OK = "0" if os.environ.get("C20_STRICT_PANIC") == "1" else "1"
 # `sylt x.sy -o - > /dev/full`: the property fixes the exit status by "compilation succeeded" and speaks of FILE only, so
 # the status of that one case is left open; C20_STRICT_STDOUT=1 requires a non-zero status there as for an unwritable FILE.
 STRICT_STDOUT = "1" if os.environ.get("C20_STRICT_STDOUT") == "1" else "0"
-TIERS = {"quick": (3, 2), "thorough": (3, 12)}       # (program variants per class, command-line spellings)
+TIERS = {"quick": (3, 1), "thorough": (3, 4)}       # (program variants per class, command-line spellings)
 
 
 def build_lua():
@@ -50,7 +50,7 @@ def build_lua():
 def flags_of(cfg):
     f = {"run": "run", "stdout": "-o -", "file": "-o FILE"}[cfg["mode"]]
     if cfg["req"]:
-        f += "+--require"
+        f += "+--require=" + cfg["marg"]
     if cfg["nostd"]:
         f += "+--no-std"
     return f
@@ -70,6 +70,12 @@ def path_of(cfg):
     return cfg["path"]
 
 
+def expected_module(cfg):
+    """Only for vacuity counters and messages - the expectation itself is SyltDriver!ExpectedModule."""
+    m = cfg["marg"]
+    return m[:-4] if m.endswith(".lua") and len(m) > 4 else m
+
+
 def signature(cfg, what):
     """From the configuration only: C20|<flags>|<prog class>|<path class>|<what>."""
     return "C20|%s|%s|%s|%s" % (flags_of(cfg), prog_of(cfg), path_of(cfg), what)
@@ -78,7 +84,7 @@ def signature(cfg, what):
 def sample_of(rec):
     return {"argv": ["sylt"] + rec["argv"], "program": prog_of(rec["cfg"]) + ("/std" if rec["cfg"]["std"] else "/std-free"),
             "path": path_of(rec["cfg"]), "exit": rec["exit"], "stdout_bytes": rec["so"]["len"], "stderr_bytes": rec["se"]["len"],
-            "error_blocks": len(rec["blocks"]), "file_before": rec["before"]["k"], "file_after": rec["after"]["k"],
+            "error_blocks": rec["blocks"]["n"], "file_before": rec["before"]["k"], "file_after": rec["after"]["k"],
             "emitted_bytes": rec["emit"]["len"] if rec["emit"]["present"] else 0, "requires_run": rec["emit"]["run"]["requires"]}
 
 
@@ -181,7 +187,13 @@ def record(wd, name, cases, sylt, lua, seed=None):
     recs = vlib.read_ndjson(trace)
     if len(recs) != len(cases) or p.stdout.strip() != str(len(cases)):
         vlib.tool_error("recorder wrote %d records for %d cases" % (len(recs), len(cases)))
-    return trace, recs
+    # TLC reads the facts only: sources, command line and text excerpts (kept for messages and replay files) are left out
+    slim = os.path.join(wd, name + "-trace-tlc.ndjson")
+    drop = ("files", "argv", "module")
+    vlib.write_ndjson(slim, [dict({k: v for k, v in r.items() if k not in drop},
+                                  so={k: v for k, v in r["so"].items() if k != "head"},
+                                  se={k: v for k, v in r["se"].items() if k != "text"}) for r in recs])
+    return slim, recs
 
 
 # ------------------------------------------------------------------------------------------------ negative controls
@@ -194,18 +206,22 @@ STUBS = [
     ("exit0", lambda b: _rejected(b), "exit"),
     ("exit1", lambda b: b["success"], "exit"),
     ("silent", lambda b: _rejected(b) and b["cfg"]["path"] != "unwritable", "errors-missing"),
-    ("first-only", lambda b: b["cfg"]["pk"] == "rej" and b["cfg"]["pn"] >= 2 and not b["cfg"]["std"] and b["cfg"]["path"] != "unwritable",
+    ("first-only", lambda b: b["cfg"]["pk"] == "rej" and b["cfg"]["pn"] == 2 and not b["cfg"]["std"] and b["cfg"]["path"] != "unwritable",
      "errors-missing"),
     ("twice", lambda b: _rejected(b) and b["cfg"]["path"] != "unwritable", "errors-extra"),
-    ("partial-file", lambda b: _rejected(b) and b["cfg"]["mode"] == "file" and b["cfg"]["path"] in ("absent", "existing"), "partial-file"),
-    ("truncate-file", lambda b: _rejected(b) and b["cfg"]["mode"] == "file" and b["cfg"]["path"] == "existing", "partial-file"),
+    ("exit-count", lambda b: b["cfg"]["pk"] == "rej" and b["cfg"]["pn"] in (256, 512) and b["cfg"]["path"] != "unwritable", "exit"),
+    ("partial-file", lambda b: _rejected(b) and b["cfg"]["mode"] == "file" and (b["cfg"]["path"] == "absent" or b["cfg"]["path"].startswith("existing")),
+     "partial-file"),
+    ("truncate-file", lambda b: _rejected(b) and b["cfg"]["mode"] == "file" and b["cfg"]["path"].startswith("existing"), "partial-file"),
     ("short-file", lambda b: b["success"] and b["cfg"]["mode"] == "file", "partial-file"),
+    ("keep-tail", lambda b: b["success"] and b["cfg"]["path"] == "existing_longer", "partial-file"),
     ("newline", lambda b: b["success"] and b["cfg"]["mode"] == "stdout", "partial-stdout"),
     ("newline", lambda b: b["success"] and b["cfg"]["mode"] == "stdout", "bytes-differ"),
     ("req2", lambda b: b["success"] and b["cfg"]["req"] and b["cfg"]["mode"] in ("file", "stdout"), "require"),
     ("req0", lambda b: b["success"] and b["cfg"]["req"] and b["cfg"]["mode"] in ("file", "stdout"), "require"),
     ("req-late", lambda b: b["success"] and b["cfg"]["req"] and b["cfg"]["mode"] in ("file", "stdout"), "require"),
     ("req-other", lambda b: b["success"] and b["cfg"]["req"] and b["cfg"]["mode"] in ("file", "stdout"), "require"),
+    ("req-stem", lambda b: b["success"] and b["cfg"]["req"] and "." in expected_module(b["cfg"]) and b["cfg"]["mode"] in ("file", "stdout"), "require"),
     ("nostd", lambda b: b["success"] and b["eff"] == "acc" and not b["cfg"]["std"] and b["cfg"]["mode"] in ("file", "stdout"), "no-std"),
     ("run-skip", lambda b: b["cfg"]["mode"] == "run" and b["cfg"]["std"] and b["eff"] in ("acc", "rt"), "run-output"),
 ]
@@ -258,19 +274,30 @@ def recording_guards(recs, ns):
     guards = {
         "exit status 0": count(lambda r: r["exit"] == 0),
         "exit status non-zero": count(lambda r: r["exit"] != 0),
-        "rejected programs with >= 2 errors, each printed": count(lambda r: len(r["ref"]["errors"]) >= 2 and len(r["blocks"]) == len(r["ref"]["errors"])),
-        "errors in an imported file": count(lambda r: any(b["file"] != "main.sy" for b in r["blocks"])),
+        "rejected programs with >= 2 errors, each printed": count(lambda r: r["ref"]["nerrors"] >= 2 and r["blocks"]["n"] == r["ref"]["nerrors"] and r["blocks"]["bag"] == r["ref"]["blocks"]["bag"]),
+        "rejected programs with exactly 255 / 256 / 257 / 512 errors, each printed, non-zero exit": min(
+            count(lambda r, n=n: r["ref"]["nerrors"] == n and r["blocks"]["n"] == n and r["exit"] != 0) for n in (255, 256, 257, 512)),
+        "errors in an imported file": count(lambda r: any(f != "main.sy" for f in r["blocks"]["files"])),
         "child lua received the complete program": count(lambda r: r["cfg"]["mode"] == "run" and r["lua"]["started"] and r["lua"]["chunk_len"] > 0
                                                          and r["lua"]["chunk_digest"] == r["ref"]["lua_digest"]),
         "run failed and lua's message was printed": count(lambda r: r["lua"]["err_len"] > 0 and r["lua"]["msg_printed"] and r["exit"] != 0),
         "run output present on stdout": count(lambda r: r["cfg"]["mode"] == "run" and r["ref"]["run"]["out_len"] > 0 and r["so"]["has_out"]),
         "FILE written completely": count(lambda r: r["cfg"]["mode"] == "file" and r["emit"]["present"] and r["emit"]["digest"] == r["ref"]["lua_digest"]),
-        "existing FILE left untouched": count(lambda r: r["cfg"]["path"] == "existing" and r["after"] == r["before"]),
-        "existing FILE replaced": count(lambda r: r["cfg"]["path"] == "existing" and r["after"]["digest"] != r["before"]["digest"]),
+        "existing FILE left untouched": count(lambda r: r["cfg"]["path"].startswith("existing") and r["after"] == r["before"]),
+        "shorter existing FILE replaced by the complete program": count(lambda r: r["cfg"]["path"] == "existing_shorter" and r["old_len"] < r["ref"]["lua_len"]
+                                                                        and r["after"]["digest"] == r["ref"]["lua_digest"]),
+        "equally long existing FILE replaced by the complete program": count(lambda r: r["cfg"]["path"] == "existing_equal" and r["old_len"] == r["ref"]["lua_len"]
+                                                                             and r["after"]["digest"] == r["ref"]["lua_digest"] != r["before"]["digest"]),
+        "longer existing FILE replaced by the complete program": count(lambda r: r["cfg"]["path"] == "existing_longer" and r["old_len"] > r["ref"]["lua_len"] > 0
+                                                                       and r["after"]["digest"] == r["ref"]["lua_digest"]),
         "unwritable FILE, non-zero exit": count(lambda r: r["cfg"]["path"] in ("missing_parent", "is_directory", "unwritable_device") and r["exit"] != 0
                                                 and r["ref"]["class"] == "ok"),
         "program on stdout": count(lambda r: r["cfg"]["mode"] == "stdout" and r["emit"]["present"]),
-        "require executed exactly once": count(lambda r: r["cfg"]["req"] and r["emit"]["present"] and r["emit"]["run"]["requires"] == ["c20mod"]),
+        "require executed exactly once": count(lambda r: r["cfg"]["req"] and r["emit"]["present"] and r["emit"]["run"]["requires"] == [expected_module(r["cfg"])]),
+        "require of a dotted module name": count(lambda r: r["cfg"]["req"] and r["emit"]["present"] and "." in expected_module(r["cfg"])
+                                                 and r["emit"]["req_names"] == [expected_module(r["cfg"])]),
+        "require given as a file name (.lua cut once)": count(lambda r: r["cfg"]["req"] and r["emit"]["present"] and r["cfg"]["marg"].endswith(".lua")
+                                                              and r["emit"]["req_names"] == [expected_module(r["cfg"])]),
         "--no-std turned a std-using program into a rejected one": count(lambda r: r["cfg"]["std"] and r["cfg"]["nostd"] and r["cfg"]["pk"] != "rej"
                                                                          and r["ref"]["class"] == "err"),
         "std-free program emitted with and without --no-std": count(lambda r: not r["cfg"]["std"] and r["emit"]["present"]),
@@ -332,13 +359,14 @@ def run(ctx):
     trace, recs = record(wd, "main", cases, sylt, lua)
     r, rejects = validate(wd, "main", trace, nv, ns, len(cases))
     add_verdicts(verdicts, recs, rejects, nv, ns)
-    guards = recording_guards(recs, ns)
+    # the counters below are calibrated for a tree on which the property holds: they say the exploration was not vacuous
+    guards = recording_guards(recs, ns) if not verdicts.violations else {"skipped: violations found": len(verdicts.violations)}
     ev.add("states", r.distinct)
     ev.add("transitions", r.generated)
     open_status = [x for x in recs if x["cfg"]["path"] == "unwritable" and x["ref"]["class"] == "ok"]
     ev.set(traces_validated_against_impl=len(recs), evaluations=len(recs), programs=len({vlib.sha(x["files"]) for x in recs}),
            distinct_nontrivial=len({vlib.sha([x["argv"], x["files"], x["cfg"]["path"]]) for x in recs}),
-           rule="every configuration of SyltDriver's universe (8 sinks x --require x --no-std x 7 program classes x uses-std = %d), "
+           rule="every configuration of SyltDriver's universe (10 sinks x {no --require, 6 spellings of M} x --no-std x 10 program classes x uses-std = %d), "
                 "x %d program variants per class x %d command-line spellings (spelling 0 canonical, the others seeded random: "
                 "-o/--output/--output=F/-oF, --require/-r/=, argument order); a case is one run of the built sylt binary in its own scratch "
                 "directory; distinct = different (argv, program files, state of the output path)" % (len(base), nv, ns),
@@ -354,7 +382,11 @@ def run(ctx):
     # 3. negative controls: the quick universe, recorded again with stubbed worlds
     ncases = make_cases(base, 1, 1)
     nmain = {i for i in rejects if i <= len(ncases)}     # variant 0 / spelling 0 is a prefix of every tier's universe
-    negative_controls(wd, base, ncases, 1, 1, sylt, lua, nmain, ev)
+    if verdicts.violations:
+        # the controls (like the counters above) are calibrated for a conforming tree; the run is a failure anyway
+        ev.set(negative_controls="skipped: violations found")
+    else:
+        negative_controls(wd, base, ncases, 1, 1, sylt, lua, nmain, ev)
 
     picks = [i for i in (1, 3, 68, 150, 200, 262, 330, 425, len(recs) - 2) if 0 < i <= len(recs)]
     ev.set(samples=[sample_of(recs[i - 1]) for i in picks], known_findings_hit=verdicts.known_hits)
@@ -365,7 +397,7 @@ def run(ctx):
               "unwritable FILE = parent directory missing, an existing directory, or /dev/full (all root-proof); a panic message that names the "
               "failure counts as the printed error unless C20_STRICT_PANIC=1",
               "`-o -` into an unwritable stdout: only rejected programs have a required status (C20_STRICT_STDOUT=1 requires non-zero for all)",
-              "M of --require is spelled without a .lua suffix; --dump-tree, -v, --help and a missing file argument are outside the property")
+              "`a require of M` = M without one trailing .lua (SyltDriver!ExpectedModule); --dump-tree, -v, --help and a missing file argument are outside the property")
     rc = verdicts.finish()
     ev.violations = len(verdicts.violations)
     ev.write()
